@@ -28,6 +28,8 @@ METALS = (11, 26, 46, 30)
 AXES = [(1.0, 0.0, 0.0), (-1.0, 0.0, 0.0), (0.0, 1.0, 0.0), (0.0, -1.0, 0.0), (0.0, 0.0, 1.0), (0.0, 0.0, -1.0)]
 VE = {13: 3, 14: 4, 15: 5, 16: 6, 17: 7, 18: 8}
 CC = 10          # AtomType.CoordinationCenter
+ALL_ATYPES = [1]      # filled from the live AtomType / AtomGeom enums at the start of a run
+ALL_GEOMS = [0]
 REL_TOL_PROPERTY = 1e-4      # "at the sum of covalent radii": the two-hydrogen literals give L·1.0000528
 
 
@@ -51,6 +53,10 @@ def gen_molecule(rng, quick):
         cc = z in METALS and rng.chance(1, 2)
         atoms.append({"z": z, "q": q, "spin": sp, "cc": cc, "hint": None, "xyz": coord,
                       "pc": round(rng.uniform() - 0.5, 3)})
+        if not cc and rng.chance(1, 4):
+            atoms[-1]["atype"] = rng.choice(ALL_ATYPES)
+            atoms[-1]["cc"] = atoms[-1]["atype"] == CC
+            atoms[-1]["geom"] = rng.choice(ALL_GEOMS)
         adj[len(atoms) - 1] = []
         return len(atoms) - 1
 
@@ -155,15 +161,20 @@ def choose_subset(rng, mol, group_of):
 # ----------------------------------------------------------------------------------------------
 # implementation side
 # ----------------------------------------------------------------------------------------------
+def atype_of(a):
+    """AtomType value of a described atom (`cc` = CoordinationCenter is what the model is told)"""
+    return a.get("atype", CC if a["cc"] else 1)
+
+
 def build(mol):
     import numpy as np
-    from molli.chem import Atom, AtomType, Bond, BondType, Element, Molecule, Structure
+    from molli.chem import Atom, AtomGeom, AtomType, Bond, BondType, Element, Molecule, Structure
 
     s = Molecule() if mol["cls"] == "Molecule" else Structure()
     A = []
     for a in mol["atoms"]:
         at = Atom(Element(a["z"]), formal_charge=a["q"], formal_spin=a["spin"],
-                  atype=AtomType.CoordinationCenter if a["cc"] else AtomType.Regular)
+                  atype=AtomType(atype_of(a)), geom=AtomGeom(a.get("geom", 0)))
         if a["hint"] is not None:
             at.attrib["__implicit_hydrogens"] = a["hint"]
         if mol["cls"] == "Molecule":
@@ -184,7 +195,8 @@ def describe(s):
     atoms = []
     for i, a in enumerate(s.atoms):
         atoms.append({"z": int(a.element.value), "q": int(a.formal_charge), "spin": int(a.formal_spin), "cc": int(a.atype) == CC,
-                      "hint": a.attrib.get("__implicit_hydrogens"), "xyz": tuple(float(x) for x in s.coords[i]), "pc": 0.0})
+                      "hint": a.attrib.get("__implicit_hydrogens"), "xyz": tuple(float(x) for x in s.coords[i]), "pc": 0.0,
+                      "atype": int(a.atype), "geom": int(a.geom)})
     bonds = []
     for b in s.bonds:
         fo = Fraction(float(b.f_order))
@@ -595,6 +607,231 @@ def search_sign_failure(ctx, mol, i, rng, tries, **kw):
     return False
 
 
+# ----------------------------------------------------------------------------------------------
+# the count must not depend on the atom's type / geometry labels
+# ----------------------------------------------------------------------------------------------
+def typed_molecules(rng, elements_13_16):
+    """every AtomType value and every AtomGeom value on every element of groups 13-16, bare and with one single bond"""
+    from molli.chem import AtomGeom, AtomType
+
+    def one(z, atype, geom, nn):
+        atoms = [{"z": z, "q": 0, "spin": 0, "cc": atype == CC, "hint": None, "xyz": (0.5, 0.25, -0.125), "pc": 0.0,
+                  "atype": atype, "geom": geom}]
+        bonds = []
+        if nn:
+            atoms.append({"z": 9, "q": 0, "spin": 0, "cc": False, "hint": None, "xyz": (1.7, 0.6, 0.3), "pc": 0.0})
+            bonds.append([0, 1, 1, "1/1"])
+        return {"atoms": atoms, "bonds": bonds, "cls": "Structure" if nn else "Molecule", "sel": None}
+
+    for z in elements_13_16:
+        for t in AtomType:
+            for nn in (0, 1):
+                yield one(z, int(t), 0, nn)
+        for g in AtomGeom:
+            yield one(z, 1, int(g), rng.below(2))
+
+
+def mol2_typed_atoms(elements_13_16):
+    """live atoms typed by `set_mol2_type` from every token the writer can emit for a group 13-16 element, and from
+    every element symbol combined with every suffix the reader knows"""
+    from molli.chem import Atom, AtomGeom, AtomType, Element
+
+    toks = set()
+    for z in elements_13_16:
+        e = Element(z)
+        for t in AtomType:
+            for g in AtomGeom:
+                try:
+                    toks.add(Atom(e, atype=t, geom=g).get_mol2_type())
+                except Exception:  # noqa: BLE001
+                    pass
+        for suf in ("", ".4", ".3", ".2", ".1", ".ar", ".am", ".cat", ".pl3", ".co2", ".O", ".O2", ".oh", ".th", ".t3p", ".spc", ".o2"):
+            toks.add(e.name + suf)
+    for tok in sorted(toks):
+        a = Atom()
+        try:
+            a.set_mol2_type(tok)
+        except Exception:  # noqa: BLE001
+            continue
+        yield tok, a
+
+
+# ----------------------------------------------------------------------------------------------
+# histories before the call: queries, then edits through every route (API and the live lists), then the call
+# ----------------------------------------------------------------------------------------------
+def query_everything(s):
+    """populate whatever an object might remember between calls"""
+    for a in list(s.atoms):
+        list(s.connected_atoms(a))
+        list(s.bonds_with_atom(a))
+        s.bonded_valence(a)
+        s.n_bonds_with_atom(a)
+        list(s.yield_bfs(a))
+    for b in list(s.bonds):
+        s.is_bond_in_ring(b)
+        list(s.yield_bfsd(b.a1, b.a2))
+    for i in range(s.n_atoms):
+        s.get_atom_coord(i)
+        s.get_atom_index(s.atoms[i])
+
+
+def gen_history_edit(rng, mol, serial):
+    n = len(mol["atoms"])
+    present = {frozenset((b[0], b[1])) for b in mol["bonds"]}
+    free = [(i, j) for i in range(n) for j in range(i + 1, n) if frozenset((i, j)) not in present
+            and len([b for b in mol["bonds"] if i in (b[0], b[1])]) < 3 and len([b for b in mol["bonds"] if j in (b[0], b[1])]) < 3]
+    choices = []
+    if free:
+        choices += ["add_bond"] * 4
+    if mol["bonds"]:
+        choices += ["del_bond"] * 4 + ["set_bond"] + (["swap_bonds"] if len(mol["bonds"]) > 1 else [])
+    if n > 2:
+        choices += ["del_atom"]
+    if n > 1:
+        choices += ["swap_atoms"]
+    choices += ["add_atom", "set_atom"]
+    op = rng.choice(choices)
+    if op == "add_bond":
+        i, j = rng.choice(free)
+        if rng.chance(1, 2):
+            i, j = j, i
+        return {"op": op, "i": i, "j": j, "bt": rng.choice([1, 1, 2, 20]),
+                "route": rng.choice(["append_bond", "connect", "list.append", "list.insert", "append_bonds"]), "pos": rng.below(len(mol["bonds"]) + 1)}
+    if op == "del_bond":
+        return {"op": op, "k": rng.below(len(mol["bonds"])), "route": rng.choice(["del_bond", "del list[k]", "list.pop"])}
+    if op == "set_bond":
+        return {"op": op, "k": rng.below(len(mol["bonds"])), "bt": rng.choice([1, 2, 3, 20])}
+    if op == "swap_bonds":
+        k = rng.below(len(mol["bonds"]) - 1)
+        return {"op": op, "k": k, "l": k + 1 + rng.below(len(mol["bonds"]) - k - 1)}
+    if op == "del_atom":
+        return {"op": op, "i": rng.below(n)}
+    if op == "swap_atoms":
+        i = rng.below(n - 1)
+        return {"op": op, "i": i, "j": i + 1 + rng.below(n - i - 1)}
+    if op == "add_atom":
+        j = rng.below(n)
+        p = mol["atoms"][j]["xyz"]
+        d = unit((rng.uniform() - 0.5, rng.uniform() - 0.5, rng.uniform() - 0.5 + 1e-9))
+        return {"op": op, "z": rng.choice([6, 7, 8, 9, 1]), "to": j if rng.chance(4, 5) else None,
+                "xyz": [p[c] + 1.45 * d[c] for c in range(3)], "route": rng.choice(["connect", "list.append"])}
+    return {"op": "set_atom", "i": rng.below(n), "q": rng.choice([-1, 0, 0, 1]), "spin": rng.choice([0, 0, 1, -1]),
+            "atype": rng.choice([1, 2, 31, 32, 100, 101, 201, 202, 204, 207])}
+
+
+def apply_history_edit(s, mol, e):
+    """the same edit on the live object and on its description"""
+    from molli.chem import Atom, AtomType, Bond, BondType, Element
+
+    op = e["op"]
+    if op == "add_bond":
+        b = Bond(s.atoms[e["i"]], s.atoms[e["j"]], btype=BondType(e["bt"]))
+        entry = [e["i"], e["j"], e["bt"], "1/1"]
+        r = e["route"]
+        if r == "append_bond":
+            s.append_bond(b)
+        elif r == "append_bonds":
+            s.append_bonds(b)
+        elif r == "connect":
+            s.connect(e["i"], e["j"], btype=BondType(e["bt"]))
+        elif r == "list.append":
+            b.parent = s
+            s.bonds.append(b)
+        else:
+            b.parent = s
+            s.bonds.insert(e["pos"], b)
+            mol["bonds"].insert(e["pos"], entry)
+            return
+        mol["bonds"].append(entry)
+    elif op == "del_bond":
+        k, r = e["k"], e["route"]
+        if r == "del_bond":
+            s.del_bond(s.bonds[k])
+        elif r == "list.pop":
+            s.bonds.pop(k)
+        else:
+            del s.bonds[k]
+        mol["bonds"].pop(k)
+    elif op == "set_bond":
+        s.bonds[e["k"]].btype = BondType(e["bt"])
+        mol["bonds"][e["k"]][2] = e["bt"]
+    elif op == "swap_bonds":
+        k, l = e["k"], e["l"]
+        s.bonds[k], s.bonds[l] = s.bonds[l], s.bonds[k]
+        mol["bonds"][k], mol["bonds"][l] = mol["bonds"][l], mol["bonds"][k]
+    elif op == "del_atom":
+        i = e["i"]
+        s.del_atom(i)
+        mol["atoms"].pop(i)
+        mol["bonds"][:] = [[b[0] - (b[0] > i), b[1] - (b[1] > i), b[2], b[3]] for b in mol["bonds"] if i not in (b[0], b[1])]
+    elif op == "swap_atoms":
+        # the atom list is edited in place: the coordinate rows (and partial charges) stay where they are
+        i, j = e["i"], e["j"]
+        s.atoms[i], s.atoms[j] = s.atoms[j], s.atoms[i]
+        ai, aj = mol["atoms"][i], mol["atoms"][j]
+        keep_i, keep_j = (ai["xyz"], ai["pc"]), (aj["xyz"], aj["pc"])
+        mol["atoms"][i], mol["atoms"][j] = aj, ai
+        mol["atoms"][i]["xyz"], mol["atoms"][i]["pc"] = keep_i
+        mol["atoms"][j]["xyz"], mol["atoms"][j]["pc"] = keep_j
+        sw = {i: j, j: i}
+        mol["bonds"][:] = [[sw.get(b[0], b[0]), sw.get(b[1], b[1]), b[2], b[3]] for b in mol["bonds"]]
+    elif op == "add_atom":
+        a = Atom(Element(e["z"]))
+        if mol["cls"] == "Molecule":
+            s.add_atom(a, list(e["xyz"]), charge=0.0)
+        else:
+            s.add_atom(a, list(e["xyz"]))
+        mol["atoms"].append({"z": e["z"], "q": 0, "spin": 0, "cc": False, "hint": None, "xyz": list(e["xyz"]), "pc": 0.0})
+        if e["to"] is not None:
+            if e["route"] == "connect":
+                s.connect(a, e["to"])
+            else:
+                b = Bond(a, s.atoms[e["to"]])
+                b.parent = s
+                s.bonds.append(b)
+            mol["bonds"].append([len(mol["atoms"]) - 1, e["to"], 1, "1/1"])
+    elif op == "set_atom":
+        a = s.atoms[e["i"]]
+        a.formal_charge, a.formal_spin, a.atype = e["q"], e["spin"], AtomType(e["atype"])
+        d = mol["atoms"][e["i"]]
+        d["q"], d["spin"], d["atype"], d["cc"] = e["q"], e["spin"], e["atype"], e["atype"] == CC
+    else:
+        raise ValueError(op)
+
+
+def run_history(ctx, mol, origin, requests, rng, script=None, **kw):
+    """queries and edits before the call; the call is judged on the graph as it is when it is made"""
+    initial = json.loads(json.dumps(mol))
+    mol = json.loads(json.dumps(mol))
+    s = build(mol)
+    edits = []
+    nrounds = len(script) if script is not None else rng.range(1, 4)
+    def queries():
+        try:
+            query_everything(s)
+        except Exception as ex:  # noqa: BLE001  (a graph query that fails on a consistent object)
+            ctx.violation("C16:query-raised-in-history",
+                          f"{type(ex).__name__}: {ex} in a neighbour / valence / ring query after the edits {edits}",
+                          {"mol": initial, "origin": origin, "initial": initial, "history": list(edits)})
+
+    for r in range(nrounds):
+        queries()
+        e = script[r] if script is not None else gen_history_edit(rng, mol, r)
+        try:
+            apply_history_edit(s, mol, e)
+        except Exception as ex:  # noqa: BLE001  (a legal edit refused by an object that is in a consistent state)
+            ctx.violation("C16:edit-raised-in-history", f"{type(ex).__name__}: {ex} in edit {e} after the edits {edits}",
+                          {"mol": initial, "origin": origin, "initial": initial, "history": edits + [e]})
+            return mol, 0
+        edits.append(e)
+        ctx.count(f"history:edit:{e['op']}" + (f":{e['route']}" if "route" in e else ""))
+    if rng.chance(2, 3):
+        queries()
+    ctx.count("history:molecules")
+    added = run_case(ctx, mol, origin, requests, live=s, extra_tag={"initial": initial, "history": edits}, **kw)
+    return mol, added
+
+
 def mol_to_json(mol):
     return json.loads(json.dumps(mol))
 
@@ -623,6 +860,9 @@ def run(ctx):
         "A-hint: hints above four, and explicit atom lists with duplicates or atoms outside groups 13–17, are outside the domain",
         "A-dtype: the partial charge stored for a new hydrogen (None, D07) is C05's subject; only the length of atomic_charges and the old entries are checked here",
     ]
+    from molli.chem import AtomGeom, AtomType
+    ALL_ATYPES[:] = [int(t) for t in AtomType]
+    ALL_GEOMS[:] = [int(g) for g in AtomGeom]
     ctx.proof(props=["Molli.Props.C16"], gen=["Valence"])
     rng = ctx.rng
     requests = []
@@ -668,6 +908,33 @@ def run(ctx):
                                            + ("36 neighbour-bond multisets" if not ctx.quick() else
                                               "36 neighbour-bond multisets (B C N O Si P S) / 0..4 single bonds (other elements)"))
 
+    # ---- every atom type / geometry label, and atoms typed from mol2 tokens: the count ignores the labels ----
+    for mol in typed_molecules(rng, elements_13_16):
+        ctx.check_deadline()
+        mol = mol_to_json(mol)
+        added = run_case(ctx, mol, "typed", requests, **kw)
+        account(mol, added, "typed")
+        ctx.count(f"typed:atype={mol['atoms'][0]['atype']}")
+    from molli.chem import Atom as _Atom, Bond as _Bond, Structure as _Structure
+    ntok = 0
+    for tok, a in mol2_typed_atoms(elements_13_16):
+        if not (13 <= group_of(a.element.value) <= 16):
+            continue
+        for nn in (0, 1):
+            live = _Structure()
+            b = _Atom(a.element, atype=a.atype, geom=a.geom)
+            b.set_mol2_type(tok)
+            live.add_atom(b, [0.5, 0.25, -0.125])
+            if nn:
+                f = _Atom("F")
+                live.add_atom(f, [1.7, 0.6, 0.3])
+                live.append_bond(_Bond(b, f))
+            mol = mol_to_json(describe(live))
+            added = run_case(ctx, mol, f"mol2-token:{tok}", requests, live=live, **kw)
+            account(mol, added, "mol2-typed")
+        ntok += 1
+    ctx.extra_cov["mol2_tokens_typed"] = ntok
+
     # ---- random organic-like molecules ----
     nrand = 300 if ctx.quick() else 40000
     for k in range(nrand):
@@ -676,7 +943,9 @@ def run(ctx):
         if rng.chance(1, 6):
             mol["sel"] = choose_subset(rng, mol, group_of)
         has_hint = any(a["hint"] is not None for a in mol["atoms"])
-        if mol["sel"] is None and rng.chance(1, 2 if has_hint else 10):
+        if mol["sel"] is None and rng.chance(1, 3):
+            mol, added = run_history(ctx, mol_to_json(mol), "random", requests, rng, **kw)
+        elif mol["sel"] is None and rng.chance(1, 2 if has_hint else 10):
             added = run_copies(ctx, mol_to_json(mol), "random", requests, rng.choice(COPY_HOW),
                                rng.choice(["copy-first", "original-first"]), **kw)
         else:
@@ -759,7 +1028,23 @@ def replay(ctx, path):
     if "mol" not in r:
         return 0
     mol = r["mol"]
-    s = build(mol)
+    if r.get("history") is not None:
+        mol = json.loads(json.dumps(r["initial"]))
+        s = build(mol)
+        for e in r["history"]:
+            try:
+                query_everything(s)
+            except Exception as ex:  # noqa: BLE001
+                print("  a query raised:", type(ex).__name__, ex)
+            apply_history_edit(s, mol, e)
+            print("  edit:", e)
+        try:
+            query_everything(s)
+        except Exception as ex:  # noqa: BLE001
+            print("  a query raised:", type(ex).__name__, ex)
+        print("history re-run (queries between the edits); graph at the time of the call:", model_line(mol)[:400])
+    else:
+        s = build(mol)
     if r.get("copy"):
         c = make_copy(s, r["copy"])
         first, second = (c, s) if r.get("order") == "copy-first" else (s, c)
